@@ -19,21 +19,44 @@ func contractUnlockConditions(hostKey, renterKey types.UnlockKey) types.UnlockCo
 // revision. Only the revision number and proof output values are allowed to
 // change
 func validateStdRevision(current, revision types.FileContractRevision) error {
+	// the number of outputs must not change and both revisions must have a
+	// renter and a host output. This is checked first because the outputs of
+	// both revisions are indexed below.
+	switch {
+	case len(revision.ValidProofOutputs) != len(current.ValidProofOutputs):
+		return errors.New("valid proof outputs must not change")
+	case len(revision.MissedProofOutputs) != len(current.MissedProofOutputs):
+		return errors.New("missed proof outputs must not change")
+	case len(current.ValidProofOutputs) < 2:
+		return errors.New("contract must have renter and host valid proof outputs")
+	case len(current.MissedProofOutputs) < 2:
+		return errors.New("contract must have renter and host missed proof outputs")
+	}
+
+	// the output values of the revision are chosen by the renter, the sums
+	// must not be allowed to overflow
 	var oldPayout, validPayout, missedPayout types.Currency
+	var overflow bool
 	for _, o := range current.ValidProofOutputs {
-		oldPayout = oldPayout.Add(o.Value)
+		if oldPayout, overflow = oldPayout.AddWithOverflow(o.Value); overflow {
+			return errors.New("valid proof output sum overflows")
+		}
 	}
 	for i := range revision.ValidProofOutputs {
 		if revision.ValidProofOutputs[i].Address != current.ValidProofOutputs[i].Address {
 			return fmt.Errorf("valid proof output %v address should not change", i)
 		}
-		validPayout = validPayout.Add(revision.ValidProofOutputs[i].Value)
+		if validPayout, overflow = validPayout.AddWithOverflow(revision.ValidProofOutputs[i].Value); overflow {
+			return errors.New("valid proof output sum overflows")
+		}
 	}
 	for i := range revision.MissedProofOutputs {
 		if revision.MissedProofOutputs[i].Address != current.MissedProofOutputs[i].Address {
 			return fmt.Errorf("missed proof output %v address should not change", i)
 		}
-		missedPayout = missedPayout.Add(revision.MissedProofOutputs[i].Value)
+		if missedPayout, overflow = missedPayout.AddWithOverflow(revision.MissedProofOutputs[i].Value); overflow {
+			return errors.New("missed proof output sum overflows")
+		}
 	}
 
 	switch {
@@ -51,10 +74,6 @@ func validateStdRevision(current, revision types.FileContractRevision) error {
 		return errors.New("window start must not change")
 	case revision.WindowEnd != current.WindowEnd:
 		return errors.New("window end must not change")
-	case len(revision.ValidProofOutputs) != len(current.ValidProofOutputs):
-		return errors.New("valid proof outputs must not change")
-	case len(revision.MissedProofOutputs) != len(current.MissedProofOutputs):
-		return errors.New("missed proof outputs must not change")
 	case revision.ValidRenterPayout().Cmp(current.ValidRenterPayout()) > 0:
 		return errors.New("renter valid proof output must not increase")
 	case revision.MissedRenterPayout().Cmp(current.MissedRenterPayout()) > 0:
@@ -159,6 +178,8 @@ func ValidateClearingRevision(current, final types.FileContractRevision, finalPa
 		return types.ZeroCurrency, errors.New("wrong number of proof outputs")
 	case len(final.ValidProofOutputs) != len(final.MissedProofOutputs):
 		return types.ZeroCurrency, errors.New("valid proof outputs must equal missed proof outputs")
+	case len(final.ValidProofOutputs) != len(current.ValidProofOutputs):
+		return types.ZeroCurrency, errors.New("valid proof outputs must not change")
 	case final.RevisionNumber != types.MaxRevisionNumber:
 		return types.ZeroCurrency, errors.New("revision number must be max value")
 	case final.UnlockHash != current.UnlockHash:
@@ -247,6 +268,8 @@ func ValidateRevision(current, revision types.FileContractRevision, payment, col
 func ValidateProgramRevision(current, revision types.FileContractRevision, storage, collateral types.Currency) (burn types.Currency, _ error) {
 	if err := validateStdRevision(current, revision); err != nil {
 		return types.ZeroCurrency, err
+	} else if len(current.MissedProofOutputs) < 3 {
+		return types.ZeroCurrency, errors.New("contract must have a void output")
 	}
 
 	// calculate the amount of SC that the host is expected to burn
@@ -256,8 +279,10 @@ func ValidateProgramRevision(current, revision types.FileContractRevision, stora
 	}
 
 	// validate that the host is not burning more than the expected amount
-	expectedBurn := storage.Add(collateral)
-	if hostBurn.Cmp(expectedBurn) > 0 {
+	expectedBurn, overflow := storage.AddWithOverflow(collateral)
+	if overflow {
+		return types.ZeroCurrency, errors.New("expected burn overflows")
+	} else if hostBurn.Cmp(expectedBurn) > 0 {
 		return types.ZeroCurrency, fmt.Errorf("host expected to burn at most %d, but burned %d", expectedBurn, hostBurn)
 	}
 
@@ -292,14 +317,30 @@ func ValidatePaymentRevision(current, revision types.FileContractRevision, payme
 	}
 	// validate that all outputs are consistent with only transferring the
 	// payment from the renter payouts to the host payouts.
+	validRenter, underflow := current.ValidRenterPayout().SubWithUnderflow(payment)
+	if underflow {
+		return errors.New("renter valid proof output is less than the payment amount")
+	}
+	missedRenter, underflow := current.MissedRenterPayout().SubWithUnderflow(payment)
+	if underflow {
+		return errors.New("renter missed proof output is less than the payment amount")
+	}
+	validHost, overflow := current.ValidHostPayout().AddWithOverflow(payment)
+	if overflow {
+		return errors.New("host valid proof output overflows")
+	}
+	missedHost, overflow := current.MissedHostPayout().AddWithOverflow(payment)
+	if overflow {
+		return errors.New("host missed proof output overflows")
+	}
 	switch {
-	case revision.ValidRenterPayout().Cmp(current.ValidRenterPayout().Sub(payment)) != 0:
+	case revision.ValidRenterPayout().Cmp(validRenter) != 0:
 		return errors.New("renter valid proof output is not reduced by the payment amount")
-	case revision.MissedRenterPayout().Cmp(current.MissedRenterPayout().Sub(payment)) != 0:
+	case revision.MissedRenterPayout().Cmp(missedRenter) != 0:
 		return errors.New("renter missed proof output is not reduced by the payment amount")
-	case revision.ValidHostPayout().Cmp(current.ValidHostPayout().Add(payment)) != 0:
+	case revision.ValidHostPayout().Cmp(validHost) != 0:
 		return errors.New("host valid proof output is not increased by the payment amount")
-	case revision.MissedHostPayout().Cmp(current.MissedHostPayout().Add(payment)) != 0:
+	case revision.MissedHostPayout().Cmp(missedHost) != 0:
 		return errors.New("host missed proof output is not increased by the payment amount")
 	}
 	return nil
